@@ -1,4 +1,5 @@
 import BSEModel.Index
+import BSEProofs.Lemmas.IndexSpec
 /-! # C11 — the index, filters and role lookups agree with the data store -/
 namespace BSE.Props.C11
 open BSE BSE.Index
@@ -117,5 +118,17 @@ example : (filterEntries demoMd (some "SVP") none (some "ORBITAL") (some ["6"]))
     ∧ (filterEntries demoMd none none none (some ["3"])).map (fun e => (e.key, e.versions.map (·.1))) = [("sto-3g", ["1"])] := by
   decide +kernel
 example : maxStr ["0", "2", "1"] = some "2" := by decide +kernel
+
+/-! ## the index builder: listed versions = table files present -/
+
+open BSE.Compose in
+/-- **the versions the index builder lists for a basis are exactly its table files**: every listed version names one of
+the table files of that version, with that file's path and the (numerically sorted) elements of its composition; and the
+version of every table file is listed -/
+theorem index_versions_are_table_files (dir : Dir) (tables : List String) (res : Dict × Option J × Option Dict)
+    (h : versionInfo dir tables = .ok res) :
+    (∀ ver r, Dict.get? res.1 ver = some r → RecordOf dir tables ver r)
+    ∧ (∀ t ∈ tables, (Dict.get? res.1 (versionField t)).isSome = true) :=
+  versionInfo_spec dir tables res h
 
 end BSE.Props.C11
